@@ -62,8 +62,8 @@ def runLine (line : String) : String :=
     | none => "bad-request"
   | ["fromunixus", d, z] =>
     match parseFloatBits d with
-    -- `quantity.to_f64() as i64`: saturating, NaN ↦ 0 (the same as `Float.toInt64`)
-    | some x => fmtZ (fromUnixMicros (f2i x) z)
+    -- `quantity.to_f64().round() as i64`: half away from zero, then saturating, NaN ↦ 0 (as `Float.toInt64`)
+    | some x => fmtZ (fromUnixMicros (f2i x.round) z)
     | none => "bad-request"
   | ["diff", a, b] =>
     match a.toInt?, b.toInt? with
